@@ -150,8 +150,10 @@ func requirement(w *World, d *Deployed, c *CallInfo) wReq {
 		}
 		return r
 	}
+	// the majority account of the keys that hold the NeoFSAlphabet role in the
+	// block about to be made (nobody while the role is not designated)
 	roleCommittee := func() wReq {
-		r := wReq{known: true, alts: [][]util.Uint160{wAlt(C)}}
+		r := wReq{known: true}
 		if ks, _, err := w.BC.GetDesignatedByRole(noderoles.NeoFSAlphabet); err == nil && len(ks) > 0 {
 			if h, ok := multisigHash(len(ks)/2+1, ks); ok {
 				r.alts = append(r.alts, wAlt(h))
